@@ -14,6 +14,7 @@ import (
 	"net/http/httptest"
 	"reflect"
 	"testing"
+	"time"
 	"unsafe"
 
 	abci "github.com/cometbft/cometbft/abci/types"
@@ -32,6 +33,7 @@ import (
 	sdk "github.com/cosmos/cosmos-sdk/types"
 	authtypes "github.com/cosmos/cosmos-sdk/x/auth/types"
 	banktypes "github.com/cosmos/cosmos-sdk/x/bank/types"
+	vestingtypes "github.com/cosmos/cosmos-sdk/x/auth/vesting/types"
 	paramstypes "github.com/cosmos/cosmos-sdk/x/params/types"
 	"github.com/cosmos/ibc-go/v7/testing/mock"
 	"github.com/spf13/cobra"
@@ -43,6 +45,7 @@ import (
 	beacontypes "github.com/unification-com/mainchain/x/beacon/types"
 	enttypes "github.com/unification-com/mainchain/x/enterprise/types"
 	wrktypes "github.com/unification-com/mainchain/x/wrkchain/types"
+	"github.com/unification-com/mainchain/zz_verif/model"
 )
 
 var theApp *app.App
@@ -443,4 +446,264 @@ func ProbeUpgradeMigration(module string) (res string) {
 		}
 	}
 	return "ok"
+}
+
+// ---- trusted-base self-check: the bank ledger model against the real SDK bank (C04/C05) ----
+
+// BankModelDiff runs a battery of concrete operation sequences (delegate to / undelegate from the
+// enterprise module account for base and vesting accounts with different delegation bookkeeping,
+// plain sends, sends beyond the spendable balance, blocked recipients) on the ledger model the
+// symbolic harnesses use (zz_verif/model/bank.go) and on the real x/bank + x/auth keepers of the
+// real application, and compares after every step: error or not, balances, spendable and locked
+// coins, the vesting account's DelegatedVesting/DelegatedFree. Returns "" if they agree, else the
+// first difference. Native only (the engine never runs it): it is executed by the native
+// self-check of the wiring checks.
+func BankModelDiff() (diff string) {
+	defer func() {
+		if r := recover(); r != nil {
+			diff = fmt.Sprintf("panic: %v", r)
+		}
+	}()
+	a := probe().a
+	const den = "nund"
+	coin := func(n int64) sdk.Coins { return sdk.NewCoins(sdk.NewInt64Coin(den, n)) }
+	type scen struct {
+		vesting, dv, df, bal int64 // vesting account set-up (vesting == 0: a base account)
+		ops                  []int64 // > 0: delegate that much to the module; < 0: undelegate; 0 < |x| always
+	}
+	scens := []scen{
+		{0, 0, 0, 1000, []int64{300, -100, -200, 800}},
+		{1000, 0, 0, 1500, []int64{100, 600, 500, -50, -400, -750}},
+		{1000, 200, 0, 1500, []int64{900, -900}},
+		{1000, 0, 300, 1200, []int64{1200, -1300}},
+		{500, 500, 100, 400, []int64{400, -1, -399, -700}},
+		{1000, 0, 0, 700, []int64{800, 700, -700}},
+	}
+	for si, sc := range scens {
+		ctx := a.BaseApp.NewContext(true, tmproto.Header{Height: a.LastBlockHeight() + 1, Time: time.Unix(1700000000, 0)})
+		ctx, _ = ctx.CacheContext()
+		addr := sdk.AccAddress(fmt.Sprintf("bankmodeldiff%07d", si))
+		other := sdk.AccAddress(fmt.Sprintf("bankmodelother%06d", si))
+		// real side
+		base := authtypes.NewBaseAccountWithAddress(addr)
+		base.AccountNumber = a.AccountKeeper.NextAccountNumber(ctx)
+		if sc.vesting > 0 {
+			va := vestingtypes.NewDelayedVestingAccount(base, coin(sc.vesting), 4102444800) // vests in 2100
+			if sc.dv > 0 {
+				va.DelegatedVesting = coin(sc.dv)
+			}
+			if sc.df > 0 {
+				va.DelegatedFree = coin(sc.df)
+			}
+			a.AccountKeeper.SetAccount(ctx, va)
+		} else {
+			a.AccountKeeper.SetAccount(ctx, base)
+		}
+		// the module account holds what was delegated before (dv + df) plus a float of its own
+		pre := sc.dv + sc.df + 5000
+		if err := a.BankKeeper.MintCoins(ctx, enttypes.ModuleName, coin(sc.bal+pre)); err != nil {
+			return "setup mint: " + err.Error()
+		}
+		if err := a.BankKeeper.SendCoinsFromModuleToAccount(ctx, enttypes.ModuleName, addr, coin(sc.bal)); err != nil {
+			return "setup send: " + err.Error()
+		}
+		modAddr := authtypes.NewModuleAddress(enttypes.ModuleName)
+		modBefore := a.BankKeeper.GetBalance(ctx, modAddr, den).Amount
+		// model side
+		mb := model.NewBank()
+		mb.AddModule(enttypes.ModuleName, authtypes.Minter, authtypes.Staking)
+		if sc.vesting > 0 {
+			c0 := func(n int64) sdk.Coins {
+				if n == 0 {
+					return sdk.Coins{}
+				}
+				return coin(n)
+			}
+			mb.AddVesting(addr, coin(sc.vesting), c0(sc.dv), c0(sc.df))
+		} else {
+			mb.AddBase(addr)
+		}
+		mb.AddBase(other)
+		mb.Fund(addr, den, sdk.NewInt(sc.bal))
+		mb.Fund(modAddr, den, modBefore)
+		cmp := func(step string) string {
+			for _, who := range []sdk.AccAddress{addr, modAddr, other} {
+				if r, m := a.BankKeeper.GetBalance(ctx, who, den).Amount, mb.Bal(who, den); !r.Equal(m) {
+					return fmt.Sprintf("scenario %d %s: balance of %s real %s model %s", si, step, who, r, m)
+				}
+			}
+			if r, m := a.BankKeeper.SpendableCoins(ctx, addr).AmountOf(den), mb.SpendableCoins(ctx, addr).AmountOf(den); !r.Equal(m) {
+				return fmt.Sprintf("scenario %d %s: spendable real %s model %s", si, step, r, m)
+			}
+			if r, m := a.BankKeeper.LockedCoins(ctx, addr).AmountOf(den), mb.LockedCoins(ctx, addr).AmountOf(den); !r.Equal(m) {
+				return fmt.Sprintf("scenario %d %s: locked real %s model %s", si, step, r, m)
+			}
+			if va, ok := a.AccountKeeper.GetAccount(ctx, addr).(*vestingtypes.DelayedVestingAccount); ok {
+				for _, acc := range mb.Accounts {
+					if acc.Addr.Equals(addr) {
+						if !va.DelegatedVesting.AmountOf(den).Equal(acc.DelegatedVesting.AmountOf(den)) || !va.DelegatedFree.AmountOf(den).Equal(acc.DelegatedFree.AmountOf(den)) {
+							return fmt.Sprintf("scenario %d %s: delegation books real %s/%s model %s/%s", si, step, va.DelegatedVesting, va.DelegatedFree, acc.DelegatedVesting, acc.DelegatedFree)
+						}
+					}
+				}
+			}
+			return ""
+		}
+		if d := cmp("setup"); d != "" {
+			return d
+		}
+		both := func(step string, real, mod func() error) string {
+			var re, me error
+			rp, mp := false, false
+			func() {
+				defer func() {
+					if recover() != nil {
+						rp = true
+					}
+				}()
+				// failed bank operations leave partial writes behind on the real keeper (the caller's
+				// transaction is discarded): run each on its own branch and commit only on success
+				cc, write := ctx.CacheContext()
+				saved := ctx
+				ctx = cc
+				re = real()
+				ctx = saved
+				if re == nil {
+					write()
+				}
+			}()
+			func() {
+				defer func() {
+					if recover() != nil {
+						mp = true
+					}
+				}()
+				snap := mb.Clone()
+				me = mod()
+				if me != nil {
+					*mb = *snap
+				}
+			}()
+			if rp != mp || (re == nil) != (me == nil) {
+				return fmt.Sprintf("scenario %d %s: real err=%v panic=%v, model err=%v panic=%v", si, step, re, rp, me, mp)
+			}
+			if rp {
+				return ""
+			}
+			return cmp(step)
+		}
+		for oi, op := range sc.ops {
+			step := fmt.Sprintf("op %d (%d)", oi, op)
+			var d string
+			if op > 0 {
+				d = both(step, func() error { return a.BankKeeper.DelegateCoinsFromAccountToModule(ctx, addr, enttypes.ModuleName, coin(op)) },
+					func() error { return mb.DelegateCoinsFromAccountToModule(ctx, addr, enttypes.ModuleName, coin(op)) })
+			} else {
+				d = both(step, func() error { return a.BankKeeper.UndelegateCoinsFromModuleToAccount(ctx, enttypes.ModuleName, addr, coin(-op)) },
+					func() error { return mb.UndelegateCoinsFromModuleToAccount(ctx, enttypes.ModuleName, addr, coin(-op)) })
+			}
+			if d != "" {
+				return d
+			}
+		}
+		// a plain send of everything spendable plus one (must fail on both), then of the spendable amount
+		sp := a.BankKeeper.SpendableCoins(ctx, addr).AmountOf(den)
+		if d := both("send spendable+1", func() error { return a.BankKeeper.SendCoins(ctx, addr, other, sdk.NewCoins(sdk.NewCoin(den, sp.AddRaw(1)))) },
+			func() error { return mb.SendCoins(ctx, addr, other, sdk.NewCoins(sdk.NewCoin(den, sp.AddRaw(1)))) }); d != "" {
+			return d
+		}
+		if sp.IsPositive() {
+			if d := both("send spendable", func() error { return a.BankKeeper.SendCoins(ctx, addr, other, sdk.NewCoins(sdk.NewCoin(den, sp))) },
+				func() error { return mb.SendCoins(ctx, addr, other, sdk.NewCoins(sdk.NewCoin(den, sp))) }); d != "" {
+				return d
+			}
+		}
+	}
+	return ""
+}
+
+// StoreModelDiff: the ordered finite map that stands in for the KV store in every symbolic harness
+// (zz_verif/model/store.go) against a real store of the real application (the wrkchain module's
+// IAVL-backed store behind the cache-wrapped check state), on a deterministic pseudo-random
+// sequence of Set / Delete / Get / Has and forward / reverse iterations over arbitrary [start, end)
+// ranges (nil bounds, prefix ranges, empty ranges), comparing every result. "" if they agree.
+func StoreModelDiff() (diff string) {
+	defer func() {
+		if r := recover(); r != nil {
+			diff = fmt.Sprintf("panic: %v", r)
+		}
+	}()
+	a := probe().a
+	ctx := a.BaseApp.NewContext(true, tmproto.Header{Height: a.LastBlockHeight() + 1})
+	ctx, _ = ctx.CacheContext()
+	real := ctx.KVStore(a.GetKey(wrktypes.StoreKey))
+	// start from an empty real store
+	var old [][]byte
+	it0 := real.Iterator(nil, nil)
+	for ; it0.Valid(); it0.Next() {
+		old = append(old, append([]byte{}, it0.Key()...))
+	}
+	it0.Close()
+	for _, k := range old {
+		real.Delete(k)
+	}
+	ms := model.NewMemStore()
+	seed := uint64(0x9E3779B97F4A7C15)
+	next := func(n uint64) uint64 {
+		seed = seed*6364136223846793005 + 1442695040888963407
+		return (seed >> 33) % n
+	}
+	key := func() []byte {
+		// short keys over a tiny alphabet so that prefixes, equal keys and neighbours are frequent
+		n := 1 + next(3)
+		k := make([]byte, n)
+		for i := range k {
+			k[i] = byte([]byte{0x00, 0x01, 0x7f, 0xff}[next(4)])
+		}
+		return k
+	}
+	bound := func() []byte {
+		if next(4) == 0 {
+			return nil
+		}
+		return key()
+	}
+	for step := 0; step < 3000; step++ {
+		switch next(6) {
+		case 0, 1:
+			k, v := key(), []byte{byte(next(250) + 1), byte(step)}
+			real.Set(k, v)
+			ms.Set(k, v)
+		case 2:
+			k := key()
+			real.Delete(k)
+			ms.Delete(k)
+		case 3:
+			k := key()
+			if !bytes.Equal(real.Get(k), ms.Get(k)) || real.Has(k) != ms.Has(k) {
+				return fmt.Sprintf("step %d: Get/Has(%x) real %x model %x", step, k, real.Get(k), ms.Get(k))
+			}
+		default:
+			s, e := bound(), bound()
+			rev := next(2) == 1
+			var ri, mi storetypes.Iterator
+			if rev {
+				ri, mi = real.ReverseIterator(s, e), ms.ReverseIterator(s, e)
+			} else {
+				ri, mi = real.Iterator(s, e), ms.Iterator(s, e)
+			}
+			n := 0
+			for ri.Valid() || mi.Valid() {
+				if ri.Valid() != mi.Valid() || !bytes.Equal(ri.Key(), mi.Key()) || !bytes.Equal(ri.Value(), mi.Value()) {
+					return fmt.Sprintf("step %d: iteration [%x,%x) reverse=%v differs at item %d", step, s, e, rev, n)
+				}
+				ri.Next()
+				mi.Next()
+				n++
+			}
+			ri.Close()
+			mi.Close()
+		}
+	}
+	return ""
 }
